@@ -1,4 +1,5 @@
 import Proofs.NameOrder5
+import Proofs.NameDict
 import Proofs.NameText
 /-!
 # C06 — Name comparison is the DNSSEC canonical order, coherent with equality and hash
@@ -13,7 +14,7 @@ Every statement is for all label lists over all `Nat` octets: no well-formedness
 order laws.
 -/
 namespace C06
-open Model Model.NameOrder
+open Model Model.NameOrder Model.NameDictProofs
 
 /-- "Comparing two names yields exactly the RFC 4034 §6.1 canonical order (labels right to left,
 ASCII case-insensitive octet order, relative names before absolute)": the three outcomes of the order
@@ -220,7 +221,53 @@ theorem successor_predecessor_in_zone (n o r : Name) (p : Bool) (hn : isAbs n = 
     · exact Or.inl e
     · exact Or.inr hb
 
+/-! ## `dns.namedict.NameDict` (anchored file; a user of name equality, hash and suffixes) -/
+
+/-- `NameDict` keeps `max_depth` an upper bound of the label counts of its keys over every history of
+assignments and deletions (including re-assignment of an existing key up to case, deletion of absent keys,
+and the recomputation when the last key of maximal depth goes away). -/
+theorem namedict_depth_invariant (ops : List NdOp) : DepthOk (ndRun NDict.empty ops) :=
+  depthOk_run ops NDict.empty (by intro p hp; cases hp)
+
+/-- `get_deepest_match(name)`: under that invariant the returned key is a stored key (up to ASCII case) with
+its value, it is the empty name or a suffix of `name`, and no suffix of `name` with more labels is a key —
+"the longest name in the dictionary which is a superdomain of name"; `KeyError` (`none`) is raised exactly when
+neither a suffix of `name` nor the empty name is a key. -/
+theorem namedict_deepest_match (d : NDict) (h : DepthOk d) (name : Name) :
+    (∀ k v, ndDeepest d name = some (k, v) →
+      ndFind d.store k = some v ∧
+      (k = [] ∨ ∃ i, 1 ≤ i ∧ i ≤ name.length ∧ k = name.drop (name.length - i)) ∧
+      ∀ i, 1 ≤ i → i ≤ name.length → ndHas d.store (name.drop (name.length - i)) = true → i ≤ k.length) ∧
+    (ndDeepest d name = none →
+      ndHas d.store [] = false ∧
+      ∀ i, 1 ≤ i → i ≤ name.length → ndHas d.store (name.drop (name.length - i)) = false) :=
+  ⟨fun k v hr => deepest_some d h name k v hr, deepest_none d h name⟩
+
+/-- `choose_relativity(origin, relativize)` is `relativize` / `derelativize` for a non-empty origin and the
+identity for `None` and for the zero-label origin (`if origin:`); so relativizing and then derelativizing
+through it restores every absolute name (up to the case of the origin's labels). -/
+theorem choose_relativity_spec (a o : Name) (rel : Bool) :
+    chooseRelativity06 a none rel = .ok a ∧ chooseRelativity06 a (some []) rel = .ok a ∧
+    (o ≠ [] → chooseRelativity06 a (some o) true = relativize a o ∧
+      chooseRelativity06 a (some o) false = derelativize a o) ∧
+    (WfName a → isAbs a = true → o ≠ [] →
+      ∃ r a', chooseRelativity06 a (some o) true = .ok r ∧ chooseRelativity06 r (some o) false = .ok a' ∧
+        nameEq a' a = true) := by
+  refine ⟨rfl, rfl, ?_, ?_⟩
+  · intro ho
+    have : o.length ≠ 0 := fun e => ho (List.length_eq_zero_iff.1 e)
+    simp [chooseRelativity06, this]
+  · intro hw ha ho
+    have hl : o.length ≠ 0 := fun e => ho (List.length_eq_zero_iff.1 e)
+    obtain ⟨r, a', h1, h2, h3, _⟩ := relativize_derelativize a o hw (Or.inl ha)
+    exact ⟨r, a', by simp [chooseRelativity06, hl, h1], by simp [chooseRelativity06, hl, h2], h3⟩
+
 /-! ## non-vacuity and the witnesses named in the property text -/
+-- a NameDict history with a case-variant re-assignment and a deletion of the deepest key; lookups afterwards
+example : ndDeepest (ndRun NDict.empty [.set [[101], []] 1, .set [[119], [101], []] 2, .set [[87], [69], []] 3,
+      .del [[119], [101], []], .set [] 9]) [[120], [119], [101], []] = some ([[101], []], 1) ∧
+    ndDeepest (ndRun NDict.empty [.set [[101], []] 1, .set [] 9]) [[122], []] = some ([], 9) ∧
+    ndDeepest (ndRun NDict.empty [.set [[101], []] 1]) [[122], []] = none := by decide
 
 -- 'Z' (0x5A) compares as 'z' and therefore sorts after '[' (0x5B); '@' sorts before '`'
 example : canonLt [[91], []] [[90], []] ∧ canonLt [[64], []] [[96], []] := by decide
